@@ -224,6 +224,12 @@ pub enum Seg {
     Zero { n: usize },
     /// explicit deltas (two's complement, added wrapping)
     Lit(Vec<u64>),
+    /// measurement-level program for one collection: `deltas` are the *measured* deltas (time
+    /// stamp to time stamp); each is split over the readings of one measurement (the priming
+    /// measurement spans two readings after the collection's first reading, every later one
+    /// three), so that stuck patterns occur between measurements when a collection starts at
+    /// this segment
+    Measured { deltas: Vec<u64>, split: u64 },
 }
 
 #[derive(Clone, Debug, PartialEq, Eq, Serialize, Deserialize)]
@@ -277,6 +283,36 @@ impl TimerProg {
                         r.push(t);
                     }
                 }
+                Seg::Measured { deltas, split } => {
+                    let mut z = split | 1;
+                    for (k, d) in deltas.iter().enumerate() {
+                        // parts a + b (+ c) = d (wrapping), small random a, c
+                        z ^= z << 13;
+                        z ^= z >> 7;
+                        z ^= z << 17;
+                        let a = z % 40;
+                        let c = (z >> 8) % 40;
+                        if k == 0 {
+                            // collection start: [prev] then loop-count reading, time stamp
+                            t = t.wrapping_add(a);
+                            r.push(t);
+                            t = t.wrapping_add(d.wrapping_sub(a));
+                            r.push(t);
+                        } else {
+                            // loop-count reading of the previous measurement's LFSR source, loop
+                            // count of this one's memory source, time stamp
+                            t = t.wrapping_add(a);
+                            r.push(t);
+                            t = t.wrapping_add(c);
+                            r.push(t);
+                            t = t.wrapping_add(d.wrapping_sub(a).wrapping_sub(c));
+                            r.push(t);
+                        }
+                    }
+                    // the last measurement's trailing loop-count reading
+                    t = t.wrapping_add(3);
+                    r.push(t);
+                }
             }
         }
         Script::new(r, self.salt)
@@ -288,6 +324,7 @@ impl TimerProg {
                 d >= (1 << 30) || lo == 0
             }),
             Seg::Zero { .. } => true,
+            Seg::Measured { deltas, .. } => deltas.iter().any(|&d| d >= (1 << 30) || d as u32 == 0),
             _ => false,
         }) || self.start > u64::MAX - (1 << 40)
     }
@@ -323,6 +360,38 @@ pub fn seg(hostile: bool) -> BoxedStrategy<Seg> {
     }
 }
 
+/// measured-delta vocabulary that exercises the stuck test between measurements: repeats of the
+/// previous delta (first difference 0), continuation of an arithmetic progression (second
+/// difference 0), zero deltas, fresh values, and (hostile) deltas around +-2^31 / 2^32
+pub fn measured_seg(hostile: bool) -> BoxedStrategy<Seg> {
+    let step = prop_oneof![
+        6 => (1u64..=3000).prop_map(|v| (0u8, v)),
+        3 => Just((1u8, 0u64)),          // same as previous
+        2 => Just((2u8, 0u64)),          // continue the progression
+        2 => Just((3u8, 0u64)),          // zero delta
+        1 => Just((4u8, 0u64)),          // same as the one before the previous
+        if hostile { 2 } else { 0 } => hostile_delta().prop_map(|v| (0u8, v)),
+    ];
+    (vec(step, 2..=40), any::<u64>())
+        .prop_map(|(steps, split)| {
+            let mut deltas: Vec<u64> = Vec::new();
+            for (kind, v) in steps {
+                let n = deltas.len();
+                let d = match kind {
+                    1 if n >= 1 => deltas[n - 1],
+                    2 if n >= 2 => deltas[n - 1].wrapping_add(deltas[n - 1].wrapping_sub(deltas[n - 2])),
+                    3 => 0,
+                    4 if n >= 2 => deltas[n - 2],
+                    0 => v,
+                    _ => 100 + n as u64,
+                };
+                deltas.push(d);
+            }
+            Seg::Measured { deltas, split }
+        })
+        .boxed()
+}
+
 pub fn timer_prog(hostile: bool, max_segs: usize) -> BoxedStrategy<TimerProg> {
     let start = prop_oneof![
         4 => 1u64..=1_000_000_000_000,
@@ -331,9 +400,15 @@ pub fn timer_prog(hostile: bool, max_segs: usize) -> BoxedStrategy<TimerProg> {
         1 => (0u64..100_000).prop_map(|k| (1u64 << 32) - 50_000 + k),
         1 => any::<u64>(),
     ];
-    (start, vec(seg(hostile), 0..=max_segs), any::<u64>())
-        .prop_map(|(start, segs, salt)| TimerProg { start, segs, salt })
-        .boxed()
+    let segs = prop_oneof![
+        3 => vec(seg(hostile), 0..=max_segs),
+        // measurement-level programs first, so that the first collections start on them
+        2 => (vec(measured_seg(hostile), 1..=3), vec(seg(hostile), 0..=max_segs / 2)).prop_map(|(mut m, rest)| {
+            m.extend(rest);
+            m
+        }),
+    ];
+    (start, segs, any::<u64>()).prop_map(|(start, segs, salt)| TimerProg { start, segs, salt }).boxed()
 }
 
 // ---------------------------------------------------------------------------------------------
